@@ -35,7 +35,7 @@ type WorkerSummary struct {
 	Ops          int            `json:"ops"`
 	Steps        int            `json:"steps"`
 	Windows      int            `json:"windows"`
-	SimNanos     int64          `json:"sim_ns"`
+	SimSeconds   float64        `json:"sim_s"`
 	Stats        *RunStats      `json:"stats"`
 	Fingerprints []string       `json:"fingerprints,omitempty"`
 	Seeds        []uint64       `json:"seeds,omitempty"` // parallel to Fingerprints
@@ -82,7 +82,7 @@ func mergeStats(dst, src *RunStats) {
 	dst.Windows += src.Windows
 	dst.Steps += src.Steps
 	dst.Ops += src.Ops
-	dst.SimNanos += src.SimNanos
+	dst.SimSeconds += src.SimSeconds
 	dst.SameNodePairs += src.SameNodePairs
 	dst.JumpsSkipped += src.JumpsSkipped
 	dst.Unobservable += src.Unobservable
@@ -222,7 +222,7 @@ func TestSim(t *testing.T) {
 	finish := func() {
 		sum.Leftover = int(LeftoverGoroutines.Load())
 		sum.WallS = time.Since(began).Seconds()
-		sum.Ops, sum.Steps, sum.Windows, sum.SimNanos = sum.Stats.Ops, sum.Stats.Steps, sum.Stats.Windows, sum.Stats.SimNanos
+		sum.Ops, sum.Steps, sum.Windows, sum.SimSeconds = sum.Stats.Ops, sum.Stats.Steps, sum.Stats.Windows, sum.Stats.SimSeconds
 		writeSummary(sum)
 	}
 	harness := func(err error, where string) {
